@@ -51,6 +51,8 @@ def check(prog: Program, tier: str) -> Result:
     _tmp = Result("C05", "", "")
     _c05._r5_6(prog, _tmp)
     res.adopt(_tmp, {"R5.6"}, "R6.6", "with parallel workers, state kept between calls makes the output depend on which files a worker was given before")
+    _c05._r5_8(prog, _tmp)
+    res.adopt(_tmp, {"R5.8"}, "R6.6", "a mutated default argument is state kept between calls: the output depends on which files the same worker was given before")
     _r6_8(prog, res)
     # R6.7: constant folding happens in the formatter's process, under ITS hash seed - decided by the C15 check (R15.9), adopted
     from . import c15 as _c15
@@ -204,17 +206,13 @@ def _r6_3(prog: Program, res: Result) -> None:
         seen.add(s.key)
         text = f"{s.kind}: {short(s.node, 80)}"
         if s.imports_only:
-            # sanitiser: every call of a function that reaches this sink is followed by sort_imports in format_code
-            hosts = _callers_in_pipeline(prog, s.fn, fc)
-            ok = bool(hosts)
-            for h in hosts:
-                idxs = [i for i, k in enumerate(order) if k == h]
-                last_sort = max((i for i, k in enumerate(order) if k == sort_key), default=-1)
-                if not idxs or max(idxs) > last_sort:
-                    ok = False
-            res.decide(ok, "R6.3", s.fn.loc(s.node), s.fn.fq, text,
-                       "seed-dependent order of inserted import lines; canonicalised because fixes.sort_imports runs after every call of this stage in format_code" if ok else
-                       f"{s.detail}; the text consists of import statements but fixes.sort_imports does not run after every call of this stage")
+            # (until the sixth wave a later call of fixes.sort_imports counted as a sanitiser for text made of import lines.  It is
+            # none: the sort refuses a block that carries an ignore comment, skips blocks it must not reorder, and is a whole-text
+            # stage that can be refused by its own fences - the inserted lines then stay in hash order.  The order has to be fixed
+            # where the lines are made.)
+            res.bad("R6.3", s.fn.loc(s.node), s.fn.fq, text,
+                    f"{s.detail}: the inserted import lines come out in the iteration order of a set of str, i.e. of PYTHONHASHSEED; the later import sort does not always "
+                    "run over them (a block with `# pyrefact: ignore` is left as it is)")
         else:
             res.bad("R6.3", s.fn.loc(s.node), s.fn.fq, text, f"{s.detail}: the output depends on PYTHONHASHSEED")
     sink_nodes = {id(a) for s in tn.sinks for a in ast.walk(s.node) if not isinstance(a, (ast.expr_context, ast.operator, ast.cmpop, ast.boolop, ast.unaryop))}
